@@ -237,7 +237,15 @@ def check_lenient(model, rep):
            statement='handlers: ' + ','.join(names))
     if hs:
         rets = find_stmts(hs[0].body, lambda s: isinstance(s, ast.Return))
-        ok = len(rets) == 1 and isinstance(rets[0].value, ast.Attribute) and rets[0].value.attr == 'best' and hs[0].name and src(rets[0].value.value) == hs[0].name
+        is_best = lambda v: isinstance(v, ast.Attribute) and v.attr == 'best' and bool(hs[0].name) and src(v.value) == hs[0].name
+        ok = len(rets) == 1 and is_best(rets[0].value)
+        if not rets and isinstance(f.body[-1], ast.Return) and isinstance(f.body[-1].value, ast.Name):
+            # the handler leaves the best iterate in the variable that the function returns after the try statement
+            out = f.body[-1].value.id
+            binds = [s_ for s_ in find_stmts(hs[0].body, lambda s_: isinstance(s_, (ast.Assign, ast.AugAssign, ast.AnnAssign)))
+                     if any(isinstance(n, ast.Name) and n.id == out and isinstance(n.ctx, ast.Store) for n in ast.walk(s_))]
+            ok = bool(binds) and isinstance(binds[-1], ast.Assign) and len(binds[-1].targets) == 1 and isinstance(binds[-1].targets[0], ast.Name) and is_best(binds[-1].value) \
+                and isinstance(f.body[-2], ast.Try) and hs[0] in f.body[-2].handlers and not f.body[-2].finalbody
         rep.ob('R14.3', f.key, f.where(hs[0]), ok, 'the lenient result is the best iterate carried by the exception' if ok else
                'the lenient handler does not return <exception>.best', statement='lenient-return')
 
